@@ -2,7 +2,7 @@ SPECIFICATION Spec
 CONSTANTS
   Cmds = {"SETs", "GETs", "GETm", "INCRn", "INCRs", "DOinc", "DObad"}
   Kinds = {"pipe", "tx", "txwatch", "txconflict", "txstale"}
-  Apis = {"exec", "fn"}
+  Apis = {"exec", "fn", "oexec", "ofn"}
   MaxQueued = 2
   MaxExecs = 2
   MaxDiscards = 1
